@@ -9,6 +9,9 @@ Property C11: `unbiased_randrange` (util.py) — mask generation, candidate rang
 sampling (first accepted chunk), exact uniformity by counting entropy streams; and the
 bias bound of Ed25519's `random_scalar` (reduce a 512-bit integer mod L) as pure arithmetic.
 -/
+set_option linter.unusedSimpArgs false
+set_option linter.unusedTactic false
+set_option linter.unreachableTactic false
 namespace Spake2Model
 open Gen
 
@@ -30,18 +33,38 @@ theorem topBits_eq {m : Int} (h : 0 ≤ m) :
 /-- the top-byte mask as a natural number: `2^k - 1` -/
 def maskOf (m : Int) : Nat := 2 ^ topBits m - 1
 
+/-- `(1 << e) - 1` for an exponent known to be the natural number `t` -/
+theorem shl_one_sub_one_eq (e : Int) (t : Nat) (he : e = (t : Int)) :
+    Py.shl 1 e - 1 = ((2 ^ t - 1 : Nat) : Int) := by
+  subst he
+  have hp : 0 < 2 ^ t := Nat.pow_pos (by omega)
+  unfold Py.shl
+  rw [Int.toNat_natCast, Int.one_mul, Int.natCast_sub hp]
+  simp
+
+/-- The generated `generate_mask` returns `(2^topBits - 1, sizeBytes)`, whether the top byte is described
+by `leftover_bits = bits % 8` (with the special case `0 ↦ 0xff`) or directly by
+`bits - 8*(num_bytes - 1)`, and whether `num_bytes` is `size_bytes(maxval)` or `(bits+7)//8`. -/
 theorem generate_mask_eq {m : Int} (h : 0 ≤ m) :
     Util.generate_mask m = ((maskOf m : Int), (sizeBytes m : Int)) := by
+  have hb := sizeBits_pos h
+  have hnb := sizeBytes_eq h
+  have htb := topBits_spec h
+  have emod8 : ∀ a : Int, Int.emod a 8 = a % 8 := fun _ => rfl
   unfold Util.generate_mask maskOf
-  simp only [size_bytes_eq_sizeBytes h, size_bits_eq h]
-  have hemod : Int.emod (sizeBits m : Int) 8 = ((sizeBits m % 8 : Nat) : Int) := by
-    show (sizeBits m : Int) % 8 = _
-    omega
-  rw [hemod, topBits_eq h]
-  have hr : sizeBits m % 8 < 8 := Nat.mod_lt _ (by omega)
-  generalize sizeBits m % 8 = r at hr
-  have : r = 0 ∨ r = 1 ∨ r = 2 ∨ r = 3 ∨ r = 4 ∨ r = 5 ∨ r = 6 ∨ r = 7 := by omega
-  rcases this with rfl | rfl | rfl | rfl | rfl | rfl | rfl | rfl <;> rfl
+  simp only [size_bytes_eq_sizeBytes h, size_bits_eq h, fdiv8, emod8]
+  rw [Prod.mk.injEq]
+  constructor
+  · -- the mask
+    (try split_ifs with hl) <;> (try simp only [decide_eq_true_eq, ne_eq, not_not] at hl) <;>
+    first
+    | (refine shl_one_sub_one_eq _ _ ?_; omega)
+    | (have ht : topBits m = 8 := by omega
+       rw [ht]; rfl)
+  · -- the number of bytes
+    first
+    | rfl
+    | omega
 
 theorem maskOf_le {m : Int} (h : 0 ≤ m) : maskOf m ≤ 255 := by
   have ⟨h1, h2, _⟩ := topBits_spec h
@@ -107,11 +130,20 @@ theorem loop_step (mask nb : Nat) (maxval start : Int) (fuel : Nat) (s : Bytes)
       else randrangeLoop mask nb maxval start fuel ⟨s.drop nb⟩ := by
   rw [randrangeLoop]
   have : ¬ s.length < nb := by omega
-  simp only [Entropy.take, this, if_false, Util.randrange_accept, Util.randrange_result,
-    decide_eq_true_eq, Int.ofNat_eq_natCast]
+  -- the generated acceptance test and result, however they are written
+  have hacc : ∀ c : Int, Util.randrange_accept maxval c = true ↔ c < maxval := by
+    intro c
+    simp only [Util.randrange_accept, decide_eq_true_eq, Bool.not_eq_true', decide_eq_false_iff_not,
+      Bool.not_eq_eq_eq_not, Bool.not_true, not_le, not_lt, ge_iff_le, gt_iff_lt]
+    all_goals omega
+  have hres : ∀ c : Int, Util.randrange_result start c = start + c := by
+    intro c
+    simp only [Util.randrange_result]
+    all_goals omega
+  simp only [Entropy.take, this, if_false, hres, Int.ofNat_eq_natCast]
   by_cases hc : (cand mask (s.take nb) : Int) < maxval
-  · rw [if_pos hc]; exact if_pos hc
-  · rw [if_neg hc]; exact if_neg hc
+  · rw [if_pos hc]; exact if_pos ((hacc _).2 hc)
+  · rw [if_neg hc]; exact if_neg (fun h' => hc ((hacc _).1 h'))
 
 /-- `i`-th chunk of `nb` bytes of a stream -/
 def chunk (nb : Nat) (s : Bytes) (i : Nat) : Bytes := (s.drop (i * nb)).take nb
@@ -200,15 +232,21 @@ theorem unbiasedRandrange_eq {start stop : Int} (h : start ≤ stop) (ent : Entr
     unbiasedRandrange start stop ent =
       randrangeLoop (maskOf (stop - start)) (sizeBytes (stop - start)) (stop - start) start
         (ent.stream.length + 1) ent := by
-  unfold unbiasedRandrange Util.randrange_maxval
-  simp only [generate_mask_eq (m := stop - start) (by omega), Int.toNat_natCast]
+  have hmv : Util.randrange_maxval start stop = stop - start := by
+    simp only [Util.randrange_maxval]
+    all_goals omega
+  unfold unbiasedRandrange
+  simp only [hmv, generate_mask_eq (m := stop - start) (by omega), Int.toNat_natCast]
 
 /-- **range**: a returned value satisfies `start ≤ v < stop` -/
 theorem randrange_range {start stop v : Int} {ent ent' : Entropy}
     (h : unbiasedRandrange start stop ent = .ok (v, ent')) : start ≤ v ∧ v < stop := by
   unfold unbiasedRandrange at h
   have := loop_range _ _ _ _ _ _ _ _ h
-  unfold Util.randrange_maxval at this
+  have hmv : Util.randrange_maxval start stop = stop - start := by
+    simp only [Util.randrange_maxval]
+    all_goals omega
+  rw [hmv] at this
   omega
 
 /-! ### counting: residues in an initial segment (also Ed25519's sampler bias) -/
